@@ -508,7 +508,8 @@ Proof.
   destruct (fn =? 14). { discriminate. }
   destruct (fn =? 15). { discriminate. }
   destruct (fn =? 16). { discriminate. }
-  destruct (fn =? 17); discriminate.
+  destruct (fn =? 17). { discriminate. }
+  destruct (fn =? 18); discriminate.
 Qed.
 (* ------------------------------------------------------------------------------------------ nonce cookie round trip *)
 Theorem va_new_nonce_cookie_np value algs anon : va_new_nonce_cookie value algs anon <> VPanic.
